@@ -402,6 +402,7 @@ type wsWalker struct {
 	evs      []skelEv
 	deferred []skelEv
 	errVar   string // variable that holds the value read from c.writeErr, pending its test
+	earlyDefer bool // a release was deferred before the acquire
 	bad      string
 }
 
@@ -477,6 +478,7 @@ func (w *wsWalker) stmts(list []ast.Stmt) {
 					// the timeout / early-error returns that never obtained the lock -> a token is pushed
 					// into the 1-slot channel without having been taken.  Not dominated by its acquire.
 					w.ev("release_not_dominated_by_acquire", "c.mu")
+					w.earlyDefer = true // it does run on every later return path
 					continue
 				}
 				w.deferred = append([]skelEv{{"release", "c.mu"}}, w.deferred...)
@@ -561,7 +563,7 @@ func (w *wsWalker) stmts(list []ast.Stmt) {
 					held--
 				}
 			}
-			if held > 0 && len(w.deferred) == 0 {
+			if held > 0 && len(w.deferred) == 0 && !w.earlyDefer {
 				w.bad = "return while holding the lock without a deferred release"
 			}
 			if wsMentions(st, "mu", "conn", "writeFatal") {
